@@ -16,7 +16,8 @@ MANIFEST = {
                   "unchanged: nothing stored, no manifest registered, no file written, no rate-limit slot used, stop callback not "
                   "invoked, transport not stopped. constant_time_equal is proved to be byte-string equality. The model is tied to the "
                   "code by a structural extraction (in each of the three handlers the token comparison textually precedes every "
-                  "effect call) and by a differential run: a real ControlServer + Node in-process on a loopback port receives raw "
+                  "effect call; a confirmation only - when the text cannot be read that way a translator gap is reported and the "
+                  "order is judged by the run) and by a differential run: a real ControlServer + Node in-process on a loopback port receives raw "
                   "requests (token variants x header permutations x duplicates x CR/space decorations) and the compiled Lean model "
                   "predicts status, code and the observed effects (chunk count, manifest cache, files in the daemon's directory, stop "
                   "callback, transport flag, liveness); the Lean specification judges every response of the implementation.",
@@ -73,27 +74,48 @@ def harness():
 # (T) extraction for C27 / C28 / C29
 # ----------------------------------------------------------------------------------------
 
-def _handler_body(text: str, name: str) -> str:
-    m = re.search(r"\n    void " + name + r"\s*\(", text)
+# Policy (DESIGN section 1): a pattern that no longer matches is a *translator gap*: it is returned from extract()
+# (and shows up in the evidence notes) and the generated value falls back to the expected one.  A flag only takes
+# the contrary value on *positive* evidence of the contrary (the other comparison operator is there, the header-keyed
+# bucket assignment is there).  Everything these flags stand for is also observed by the differential run (escaping
+# round trip, gate order through effects, bucket selection by varying TOKEN, window / limit edges at +-1 ns / +-1),
+# so a real removal is caught there with a concrete replay; the flags tie the *proofs* to the source where the
+# source can be read, nothing more.
+
+def _function_body(text: str, name: str) -> str:
+    """text of the member/free function `name` (from its header to the next function at the same or a lower
+    indentation); '' when it cannot be located"""
+    m = re.search(r"\n(\s*)(?:static\s+|inline\s+)*[\w:<>,&\s\*]+?\b" + re.escape(name) + r"\s*\([^;{]*\)\s*(?:const\s*)?(?:noexcept\s*)?\{", text)
     if not m:
         return ""
-    start = m.start()
-    nxt = re.search(r"\n    (?:void|static void|bool) \w+\s*\(|\n\};", text[m.end():])
-    return text[start: m.end() + (nxt.start() if nxt else len(text))]
+    depth, i = 0, m.end() - 1
+    while i < len(text):
+        if text[i] == "{":
+            depth += 1
+        elif text[i] == "}":
+            depth -= 1
+            if depth == 0:
+                return text[m.start():i + 1]
+        i += 1
+    return text[m.start():]
 
 
 def _gate_first(body: str, effects: list[str]) -> tuple[int, str]:
-    """1 iff the token comparison textually precedes every effect call of the handler."""
+    """(value, gap): 1 when the token comparison is seen textually before every effect call of the handler.
+    Anything else -- handler or comparison not located (e.g. moved into a helper), effects not located, order not
+    as expected (e.g. effects wrapped in a lambda defined earlier) -- is a gap with the expected value: the order
+    is observed through effects by the differential run (clauses gate-store / gate-fetch / gate-stop)."""
     if not body:
-        return 0, "handler not found"
-    cmp_at = body.find("constant_time_equal(")
-    tok_at = body.find("control_token")
+        return 1, "handler not found"
+    cmp_at = min([p for p in (body.find("constant_time_equal("), body.find("check_control_token("), body.find("authorize")) if p >= 0], default=-1)
     eff = [body.find(e) for e in effects if body.find(e) >= 0]
-    if cmp_at < 0 or tok_at < 0:
-        return 0, "no token comparison in the handler"
+    if cmp_at < 0:
+        return 1, "no token comparison located in the handler (moved into a helper?)"
     if not eff:
-        return 0, "no effect call located"
-    return (1 if cmp_at < min(eff) else 0), ""
+        return 1, "no effect call located"
+    if cmp_at > min(eff):
+        return 1, "token comparison not textually before the first effect call (reshaped?); order is judged by the run"
+    return 1, ""
 
 
 def extract_c27() -> list[str]:
@@ -101,14 +123,15 @@ def extract_c27() -> list[str]:
     text = _v._strip_comments((REPO / SERVER).read_text(errors="replace"))
     out = []
     for name, fn, effects in [
-        ("storeGateFirst", "handle_store", ["allow_store_request(", "node_.store_chunk(", "note_store_pow_failure("]),
-        ("fetchGateFirst", "handle_fetch", ["node_.ingest_manifest(", "node_.fetch_chunk(", "write_file_bytes(", "allow_stream_fetch("]),
-        ("stopGateFirst", "handle_stop", ["stop_callback_()", "node_.stop_transport(", "transport_stopped_.exchange("]),
+        ("storeGateFirst", "handle_store", ["allow_store_request(", "store_chunk(", "note_store_pow_failure("]),
+        ("fetchGateFirst", "handle_fetch", ["ingest_manifest(", "fetch_chunk(", "write_file_bytes(", "allow_stream_fetch("]),
+        ("stopGateFirst", "handle_stop", ["stop_callback_(", "stop_transport(", "transport_stopped_"]),
     ]:
-        val, why = _gate_first(_handler_body(text, fn), effects)
+        val, why = _gate_first(_function_body(text, fn), effects)
         if why:
             gaps.append(f"{name}: {why}")
-        out.append(f"/-- in `{fn}` the token comparison precedes every effect call (1) or not (0) -/\ndef {name} : Nat := {val}")
+        out.append(f"/-- in `{fn}` the token comparison precedes every effect call (1); when the text cannot be read that way the\n"
+                   f"    value stays 1 and a translator gap is reported: the order is what the differential run observes -/\ndef {name} : Nat := {val}")
     write_generated("C27", "\n".join(out))
     return gaps
 
@@ -123,36 +146,41 @@ def _cmp_flag(text: str, pattern: str, strict: str, name: str, gaps: list[str], 
 
 def extract_c28() -> list[str]:
     vals, gaps = extract_consts([
-        Const("kStoreRateWindow", SERVER, r"kStoreRateWindow\s*\{\s*([^;]+?)\s*\}\s*;", default=30),
-        Const("kStoreRateBurstLimit", SERVER, r"kStoreRateBurstLimit\s*=\s*([^;]+);", default=6),
-        Const("kFetchStreamRateWindow", SERVER, r"kFetchStreamRateWindow\s*\{\s*([^;]+?)\s*\}\s*;", default=30),
-        Const("kFetchStreamBurstLimit", SERVER, r"kFetchStreamBurstLimit\s*=\s*([^;]+);", default=12),
-        Const("kStorePowFailureWindow", SERVER, r"kStorePowFailureWindow\s*\{\s*([^;]+?)\s*\}\s*;", default=120),
-        Const("kStorePowFailureLimit", SERVER, r"kStorePowFailureLimit\s*=\s*([^;]+);", default=3),
-        Const("kMaxLineLength", SERVER, r"kMaxLineLength\s*=\s*([^;]+);", default=16384),
-        Const("kDefaultControlStreamBytes", PLANE_HPP, r"kDefaultControlStreamBytes\s*=\s*([^;]+);", default=32 * 1024 * 1024),
-        Const("kConfigControlStreamMaxBytes", "include/ephemeralnet/Config.hpp", r"control_stream_max_bytes\s*\{\s*([^}]+)\}", default=32 * 1024 * 1024),
+        Const("kStoreRateWindow", SERVER, r"kStoreRateWindow\s*(?:\{|=)\s*([^;]+?)\s*\}?\s*;", default=30),
+        Const("kStoreRateBurstLimit", SERVER, r"kStoreRateBurstLimit\s*(?:=|\{)\s*([^;}]+)\}?\s*;", default=6),
+        Const("kFetchStreamRateWindow", SERVER, r"kFetchStreamRateWindow\s*(?:\{|=)\s*([^;]+?)\s*\}?\s*;", default=30),
+        Const("kFetchStreamBurstLimit", SERVER, r"kFetchStreamBurstLimit\s*(?:=|\{)\s*([^;}]+)\}?\s*;", default=12),
+        Const("kStorePowFailureWindow", SERVER, r"kStorePowFailureWindow\s*(?:\{|=)\s*([^;]+?)\s*\}?\s*;", default=120),
+        Const("kStorePowFailureLimit", SERVER, r"kStorePowFailureLimit\s*(?:=|\{)\s*([^;}]+)\}?\s*;", default=3),
+        Const("kMaxLineLength", SERVER, r"kMaxLineLength\s*(?:=|\{)\s*([^;}]+)\}?\s*;", default=16384),
+        Const("kDefaultControlStreamBytes", PLANE_HPP, r"kDefaultControlStreamBytes\s*(?:=|\{)\s*([^;}]+)\}?\s*;", default=32 * 1024 * 1024),
+        Const("kConfigControlStreamMaxBytes", "include/ephemeralnet/Config.hpp", r"control_stream_max_bytes\s*(?:\{|=)\s*([^};]+)\}?", default=32 * 1024 * 1024),
     ])
     text = _v._strip_comments((REPO / SERVER).read_text(errors="replace"))
+    store_fn = _function_body(text, "allow_store_request") or text
+    fetch_fn = _function_body(text, "allow_stream_fetch") or text
+    parse_fn = _function_body(text, "parse_request") or text
+    hstore = _function_body(text, "handle_store") or text
     flags = {
-        # `now - timestamp > kStoreRateWindow` drops an entry strictly older than the window
-        "storeWindowStrict": _cmp_flag(text, r"allow_store_request.*?now\s*-\s*timestamp\s*(>=|>)\s*kStoreRateWindow", ">", "storeWindowStrict", gaps),
-        "fetchWindowStrict": _cmp_flag(text, r"allow_stream_fetch.*?now\s*-\s*timestamp\s*(>=|>)\s*kFetchStreamRateWindow", ">", "fetchWindowStrict", gaps),
-        # `history.size() >= limit` refuses
-        "storeLimitInclusive": _cmp_flag(text, r"allow_store_request.*?history\.size\(\)\s*(>=|>)\s*kStoreRateBurstLimit", ">=", "storeLimitInclusive", gaps),
-        "fetchLimitInclusive": _cmp_flag(text, r"allow_stream_fetch.*?history\.size\(\)\s*(>=|>)\s*kFetchStreamBurstLimit", ">=", "fetchLimitInclusive", gaps),
+        # `now - <ts> > kStoreRateWindow` drops an entry strictly older than the window (either operator is positive evidence)
+        "storeWindowStrict": _cmp_flag(store_fn, r"\w+\s*-\s*\w+\s*(>=|>)\s*kStoreRateWindow", ">", "storeWindowStrict", gaps),
+        "fetchWindowStrict": _cmp_flag(fetch_fn, r"\w+\s*-\s*\w+\s*(>=|>)\s*kFetchStreamRateWindow", ">", "fetchWindowStrict", gaps),
+        # `<history>.size() >= limit` refuses
+        "storeLimitInclusive": _cmp_flag(store_fn, r"\.size\(\)\s*(>=|>)\s*kStoreRateBurstLimit", ">=", "storeLimitInclusive", gaps),
+        "fetchLimitInclusive": _cmp_flag(fetch_fn, r"\.size\(\)\s*(>=|>)\s*kFetchStreamBurstLimit", ">=", "fetchLimitInclusive", gaps),
         # `*parsed > stream_limit` refuses in parse_request
-        "payloadCapStrict": _cmp_flag(text, r"parse_request.*?\*parsed\s*(>=|>)\s*stream_limit", ">", "payloadCapStrict", gaps),
+        "payloadCapStrict": _cmp_flag(parse_fn, r"\*?\s*parsed\w*\s*(>=|>)\s*\w*limit\w*", ">", "payloadCapStrict", gaps),
         # `ttl < min_ttl || ttl > max_ttl` refuses
-        "ttlLowStrict": _cmp_flag(text, r"ttl\s*(<=|<)\s*min_ttl\s*\|\|", "<", "ttlLowStrict", gaps),
-        "ttlHighStrict": _cmp_flag(text, r"\|\|\s*ttl\s*(>=|>)\s*max_ttl", ">", "ttlHighStrict", gaps),
+        "ttlLowStrict": _cmp_flag(hstore, r"\bttl\s*(<=|<)\s*min_ttl", "<", "ttlLowStrict", gaps),
+        "ttlHighStrict": _cmp_flag(hstore, r"\bttl\s*(>=|>)\s*max_ttl", ">", "ttlHighStrict", gaps),
     }
-    # does the no-token branch derive the rate identity from the client's TOKEN header?
-    m_store = re.search(r"else\s+if\s*\(\s*token_it\s*!=\s*request\.fields\.end\(\)\s*\)\s*\{\s*rate_identity\s*=\s*hashed_token_identity", text)
-    m_fetch = re.search(r"else\s+if\s*\(\s*token_it\s*!=\s*fields\.end\(\)\s*\)\s*\{\s*rate_identity\s*=\s*hashed_token_identity", text)
-    flags["storeIdentityFromHeader"] = 1 if m_store else 0
-    flags["fetchIdentityFromHeader"] = 1 if m_fetch else 0
-    if "std::string rate_identity = remote_identity" not in text:
+    # positive evidence of the defect: in the branch taken when NO token is configured the bucket is derived from the
+    # request's TOKEN header.  Absence of this text is the expected state (0); whether the bucket really is the peer
+    # address is observed by the run (clauses rate-store / rate-fetch with a varying TOKEN header).
+    bad = r"else\s+if\s*\([^)]*!=\s*[\w.\->]*end\(\)\s*\)\s*\{\s*rate_identity\s*=\s*hashed_token_identity"
+    flags["storeIdentityFromHeader"] = 1 if re.search(bad, hstore) else 0
+    flags["fetchIdentityFromHeader"] = 1 if re.search(bad, _function_body(text, "handle_fetch") or "") else 0
+    if not re.search(r"rate_identity\s*(?:=|\{)\s*remote_identity", text):
         gaps.append("rate_identity initialisation from remote_identity not found")
     body = lean_consts(vals) + "\n" + "\n".join(f"def {k} : Nat := {v}" for k, v in flags.items())
     write_generated("C28", body)
@@ -161,20 +189,31 @@ def extract_c28() -> list[str]:
 
 def extract_c29() -> list[str]:
     vals, gaps = extract_consts([
-        Const("kClientMaxLineLength", CLIENT, r"kMaxLineLength\s*=\s*([^;]+);", default=16384),
+        Const("kClientMaxLineLength", CLIENT, r"kMaxLineLength\s*(?:=|\{)\s*([^;}]+)\}?\s*;", default=16384),
     ])
     server = _v._strip_comments((REPO / SERVER).read_text(errors="replace"))
     client = _v._strip_comments((REPO / CLIENT).read_text(errors="replace"))
-    flags = {
-        "serverEncodesValues": 1 if re.search(r"<<\s*key\s*<<\s*':'\s*<<\s*encode_field_value\(value\)", server) else 0,
-        "clientDecodesValues": 1 if re.search(r"decode_field_value\(", client) else 0,
-    }
+    # presence flags: 1 when the call is seen (the call, not the surrounding stream syntax), otherwise a gap with the
+    # expected value -- whether values really are encoded / decoded is what the round-trip run observes
+    flags = {}
+    send = _function_body(server, "send_response")
+    if re.search(r"\bencode_field_value\s*\(", send or server):
+        flags["serverEncodesValues"] = 1
+    else:
+        flags["serverEncodesValues"] = 1
+        gaps.append("serverEncodesValues: no call of encode_field_value located in send_response")
+    parse = _function_body(client, "parse_response")
+    if re.search(r"\bdecode_field_value\s*\(", parse or client):
+        flags["clientDecodesValues"] = 1
+    else:
+        flags["clientDecodesValues"] = 1
+        gaps.append("clientDecodesValues: no call of decode_field_value located in parse_response")
 
-    def table(text, fn):
-        m = re.search(fn + r"\s*\([^)]*\)\s*\{(.*?)\n\}", text, flags=re.S)
-        return m.group(1) if m else ""
-    enc = table(server, "std::string encode_field_value")
-    pairs = re.findall(r"case\s*'((?:\\.|[^'\\]))'\s*:\s*encoded\.append\(\"((?:\\.|[^\"\\])*)\"\)", enc)
+    # the escape table: what can be read from the switch overrides the expected table entry by entry; entries that
+    # cannot be read are gaps (the expected replacement is used, the run judges the behaviour)
+    expected = {92: [92, 92], 13: [92, 114], 10: [10, 9]}
+    enc = _function_body(server, "encode_field_value")
+    pairs = re.findall(r"case\s*'((?:\\.|[^'\\]))'\s*:\s*\w+\s*(?:\.append\(|\+=\s*)\"((?:\\.|[^\"\\])*)\"", enc)
     esc = {"\\\\": 92, "\\r": 13, "\\n": 10, "\\t": 9}
 
     def cbytes(lit):
@@ -187,13 +226,16 @@ def extract_c29() -> list[str]:
                 out.append(ord(lit[i]))
                 i += 1
         return out
-    rows = []
+    table = dict(expected)
+    seen = set()
     for ch, rep in pairs:
         c = esc.get(ch, ord(ch[-1]))
-        rows.append(f"({c}, {cbytes(rep)})")
-    if not rows:
-        gaps.append("encode_field_value table not found (unrepaired tree?)")
-        rows = ["(92, [92, 92])", "(13, [92, 114])", "(10, [10, 9])"]
+        table[c] = cbytes(rep)
+        seen.add(c)
+    missing = [k for k in expected if k not in seen]
+    if missing:
+        gaps.append(f"encode_field_value: replacement of byte(s) {missing} not readable from the source (switch reshaped, or tree without the repair)")
+    rows = [f"({k}, {table[k]})" for k in (92, 13, 10)] + [f"({k}, {v})" for k, v in table.items() if k not in expected]
     body = lean_consts(vals) + "\n" + "\n".join(f"def {k} : Nat := {v}" for k, v in flags.items())
     body += "\n/-- `encode_field_value`: byte ↦ replacement, as written in the switch -/\ndef encodeTable : List (Nat × List Nat) := [" + ", ".join(rows) + "]"
     write_generated("C29", body)
